@@ -32,7 +32,7 @@ CHECKS = {
     ref="DESIGN.md §4 C10"),
  "C08": dict(
     level="exploration",
-    technique="differential testing of the real binary against itself: N fresh processes (fresh map-iteration orders) x environment and working-directory variants on hand-built multi-defect documents and rapid-generated configurations; metamorphic key permutations of every YAML mapping",
+    technique="differential testing of the real binary against itself: N fresh processes (fresh map-iteration orders) x environment and working-directory variants on hand-built multi-defect documents, failing writes (output path is a directory / has no parent / is full) and rapid-generated configurations; metamorphic key permutations of every YAML mapping",
     text="Byte-identity of stdout and of the generated file across repeated executions and neutral perturbations, and of the generated file across key permutations; inputs are built so that every order-sensitive map holds at least two entries and every defect class is present at least twice.",
     note="Probabilistic for map-order dependence: a 2-entry site shows its rarer order in 1 iteration of 8 (Go starts small maps at a random slot), so it escapes n repetitions with probability (7/8)^n: 10 fresh processes + 48 in-process repetitions per document in the quick tier (0.05%), 24 + 48 in the thorough tier (0.007%); stdout is not claimed under key permutations.",
     ref="DESIGN.md §4 C08"),
@@ -56,7 +56,7 @@ CHECKS = {
     ref="DESIGN.md §4 C03"),
  "C20": dict(
     level="exploration",
-    technique="rapid-generated concurrent scripts (goroutine fan-out behind a barrier, drawn programmes, Gosched points, GOMAXPROCS 2/16, repeated rounds) executed in a probe built with the Go race detector; invariants over the collected history against the sequential DI model",
+    technique="rapid-generated concurrent scripts (an optional sequential prelude of OverrideParam / OverrideService on configurations with placeholders, then goroutine fan-out behind a barrier, drawn programmes, Gosched points, GOMAXPROCS 2/16, repeated rounds) and hand-built members executed in a probe built with the Go race detector; invariants over the collected history against the sequential DI model",
     text="Samples schedules under -race: any race report, crash or deadlock is a violation, as is a shared service with two instances, a contextual instance seen in two contexts, a parameter function evaluated more often than sequentially, or a result that differs structurally from the sequential model.",
     note="Schedule sampling, not enumeration (the harness does not own the Go scheduler); trusts the race detector and the fixture's synchronised recording layer.",
     ref="DESIGN.md §4 C20"),
@@ -116,7 +116,7 @@ CHECKS = {
     ref="DESIGN.md §4 C07"),
  "C16": dict(
     level="exploration",
-    technique="metamorphic relation across the four flag combinations (in four spellings of the switches) plus reference-model verdicts, on injected-defect mixes (all 32 class subsets + rapid random mixes); the exhaustive subsets and configurations with 255 / 256 / 512 remaining diagnostics also through the linked binary (exit status)",
+    technique="metamorphic relation across the four flag combinations (in four spellings of the switches; --quiet and --stub parity of the decision / the remaining diagnostics) plus reference-model verdicts, on injected-defect mixes (all 32 class subsets + rapid random mixes); the exhaustive subsets and configurations with 255 / 256 / 512 remaining diagnostics also through the linked binary (exit status)",
     text="Every case is run under all four flag combinations; the diagnostics under flags must be exactly the unflagged diagnostics minus the ignored classes, acceptance must follow, and accepted configurations must produce byte-identical output under every combination.",
     note="Trusts the report parser; fact sets, not wording, are compared.",
     ref="DESIGN.md §4 C16"),
